@@ -152,6 +152,12 @@ func (f *fnCtx) expr(e ast.Expr) val {
 			if _, isRoot := f.roots[o]; isRoot {
 				f.refuse(e, "struct parameter %s used as a whole", x.Name)
 			}
+			if f.isBufVar(o) {
+				if f.outParam[o] {
+					f.refuse(e, "pointer parameter %s used other than as *%s", x.Name, x.Name)
+				}
+				return val{s: f.readBuf(o, e), pure: true, t: ctype{k: tBuf}}
+			}
 			if n, ok := f.names[o]; ok && f.local[o] {
 				return val{s: n, pure: true, t: f.ctypeOf(v.Type(), e)}
 			}
@@ -160,7 +166,15 @@ func (f *fnCtx) expr(e ast.Expr) val {
 			}
 		}
 		f.refuse(e, "identifier %s is neither a local variable, a constant nor a translated package variable", x.Name)
+	case *ast.StarExpr:
+		if o, ok := f.bufVar(x); ok {
+			return val{s: f.readBuf(o, e), pure: true, t: ctype{k: tBuf}}
+		}
+		f.refuse(e, "unsupported pointer dereference")
 	case *ast.UnaryExpr:
+		if x.Op == token.AND {
+			f.refuse(e, "address-of outside a call g(&x, ..) statement of a translated function with a *[]byte parameter")
+		}
 		a := f.expr(x.X)
 		switch {
 		case x.Op == token.NOT && a.t.k == tBool:
@@ -177,6 +191,12 @@ func (f *fnCtx) expr(e ast.Expr) val {
 		return f.call(x)
 	case *ast.IndexExpr:
 		s, i := f.expr(x.X), f.expr(x.Index)
+		if s.t.k == tBuf && i.t.k == tZ {
+			if _, isVar := f.bufVar(x.X); !isVar {
+				f.refuse(e, "index of a []byte value that is not a buffer variable")
+			}
+			return f.seqImpure([]val{s, i}, ctype{k: tByte}, func(a []string) string { return "buf_index " + a[0] + " " + a[1] })
+		}
 		if (s.t.k != tBytes && s.t.k != tList) || i.t.k != tZ {
 			f.refuse(e, "unsupported index expression")
 		}
@@ -205,7 +225,13 @@ func (f *fnCtx) slice(x *ast.SliceExpr) val {
 	if x.Slice3 {
 		f.refuse(x, "3-index slice")
 	}
+	if _, isBuf := f.bufVar(x.X); isBuf {
+		return f.resliceBuf(x)
+	}
 	s := f.expr(x.X)
+	if s.t.k == tBuf {
+		f.refuse(x, "slice expression on a []byte value that is not a buffer variable")
+	}
 	_, isStr := f.typeOf(x.X).Underlying().(*types.Basic)
 	if s.t.k != tBytes && s.t.k != tList {
 		f.refuse(x, "slice of unsupported operand")
@@ -445,7 +471,17 @@ func (f *fnCtx) call(x *ast.CallExpr) val {
 				}
 			}
 		}
-		f.refuse(x, "unsupported conversion (only int(uint(e) >> k) is accepted)")
+		// string(buf) / string(buf[:k]): the bytes of the buffer up to its length (a copy: no aliasing)
+		if b, isB := tv.Type.Underlying().(*types.Basic); isB && b.Kind() == types.String && len(x.Args) == 1 && isByteSlice(f.typeOf(x.Args[0])) {
+			a := f.expr(x.Args[0])
+			if a.t.k == tBuf {
+				return f.seq([]val{a}, ctype{k: tBytes}, func(s []string) string { return "buf_string " + s[0] })
+			}
+		}
+		if v, ok := f.convExt(x, tv.Type); ok { // uints.go: value-preserving integer conversions
+			return v
+		}
+		f.refuse(x, "unsupported conversion (only int(uint(e) >> k), string(<[]byte buffer>) and value-preserving conversions from unsigned types are accepted)")
 	}
 	switch fn := x.Fun.(type) {
 	case *ast.Ident:
@@ -454,10 +490,21 @@ func (f *fnCtx) call(x *ast.CallExpr) val {
 			switch b.Name() {
 			case "len":
 				a := f.expr(x.Args[0])
+				if a.t.k == tBuf {
+					if _, isVar := f.bufVar(x.Args[0]); !isVar {
+						f.refuse(x, "len of a []byte value that is not a buffer variable")
+					}
+					return f.seq([]val{a}, ctype{k: tZ}, func(s []string) string { return "buf_len " + s[0] })
+				}
 				if a.t.k != tBytes && a.t.k != tList {
 					f.refuse(x, "len of unsupported operand")
 				}
 				return f.seq([]val{a}, ctype{k: tZ}, func(s []string) string { return "len " + s[0] })
+			case "cap":
+				if _, isVar := f.bufVar(x.Args[0]); isVar {
+					a := f.expr(x.Args[0])
+					return f.seq([]val{a}, ctype{k: tZ}, func(s []string) string { return "buf_cap " + s[0] })
+				}
 			case "min", "max":
 				if len(x.Args) == 2 && f.isInt(x) {
 					a, c := f.expr(x.Args[0]), f.expr(x.Args[1])
@@ -499,9 +546,18 @@ func (f *fnCtx) callGen(x *ast.CallExpr, sg *sig) val {
 	if len(sg.res) != 1 {
 		f.refuse(x, "multi-value call in a single-value context")
 	}
+	if sg.file != f.file {
+		f.refuse(x, "call of a function that is generated into another file")
+	}
+	if len(sg.outIdx) > 0 {
+		f.refuse(x, "call of a function with a *[]byte parameter in an expression (only as a statement)")
+	}
 	vs := make([]val, len(x.Args))
 	for i, a := range x.Args {
 		vs[i] = f.expr(a)
+		if vs[i].t.k == tBuf {
+			f.refuse(a, "a []byte buffer passed by value")
+		}
 	}
 	build := func(s []string) string { return strings.TrimSpace(sg.coq + " " + strings.Join(s, " ")) }
 	if sg.pure {
